@@ -15,7 +15,7 @@ mod insert;
 mod optimize;
 mod search;
 
-#[derive(Clone, Debug, Eq, PartialEq)]
+#[derive(Debug, Eq, PartialEq)]
 pub enum NodeData<T> {
     /// Data is stored inline.
     Inline {
@@ -49,6 +49,39 @@ pub enum NodeData<T> {
         /// The length of the expanded template.
         length: usize,
     },
+}
+
+impl<T: Clone> Clone for NodeData<T> {
+    /// Shared data is copied into a fresh `Arc`, so that a cloned tree never holds a reference
+    /// into the tree it was cloned from (`delete` relies on holding the last reference).
+    fn clone(&self) -> Self {
+        match self {
+            Self::Inline {
+                data,
+                template,
+                depth,
+                length,
+            } => Self::Inline {
+                data: data.clone(),
+                template: Arc::clone(template),
+                depth: *depth,
+                length: *length,
+            },
+            Self::Shared {
+                data,
+                template,
+                expanded,
+                depth,
+                length,
+            } => Self::Shared {
+                data: Arc::new(T::clone(data)),
+                template: Arc::clone(template),
+                expanded: Arc::clone(expanded),
+                depth: *depth,
+                length: *length,
+            },
+        }
+    }
 }
 
 impl<T> NodeData<T> {
